@@ -7,6 +7,10 @@ Event (JSON):
   ['start', c, 'q', name, args, via]  via: 'api' | 'compiled' | 'call'
   ['start', c, 'r', term, via]        via: 'builtin' | 'boundvar' | 'compiled'
   ['next', c]   ['close', c]
+  ['drop', c]                         the caller forgets the generator without closing it (`del`): CPython finalises it
+  ['open', c, ev]                     ev = an assert / retractall / qall event whose variables are the PATTERN VARIABLES OF
+                                      CURSOR c (the same Variable objects), read under the bindings that cursor has at that
+                                      moment (it is suspended at an answer, or not started / finished = unbound)
   ['retractall', term, via]           via: 'builtin' | 'boundvar' | 'compiled'
   ['qall', name, args]
   ['clear']
@@ -62,12 +66,20 @@ def callable_key(t):
         return (t[1], 0)
     return None
 
+def base_event(e):
+    """the operation of an event ('open' events: the operation that is issued over the cursor's variables)"""
+    return e[2] if e[0] == 'open' else e
+
+def has_open(events):
+    return any(e[0] == 'open' for e in events)
+
 def case_keys(events):
     ks = []
     def add(k):
         if k is not None and list(k) not in ks:
             ks.append(list(k))
     for e in events:
+        e = base_event(e)
         if e[0] == 'assert' or e[0] == 'retractall':
             add(callable_key(e[2] if e[0] == 'assert' else e[1]))
         elif e[0] == 'start':
@@ -95,7 +107,8 @@ def g_ev(e):
         return '(EStart %s (QRetract %s))' % (g_nat(e[1]), g_term(e[3]))
     if k == 'next':
         return '(ENext %s)' % g_nat(e[1])
-    if k == 'close':
+    if k in ('close', 'drop'):
+        # a generator that loses its last reference is finalised at once (reference counting): the same as close()
         return '(EClose %s)' % g_nat(e[1])
     if k == 'retractall':
         return '(ERetractAll %s)' % g_term(e[1])
@@ -108,9 +121,20 @@ def g_ev(e):
 def readback_events(keys):
     return [['qall', n, [['v', i] for i in range(ar)]] for n, ar in keys]
 
+def g_xev(e):
+    if e[0] == 'open':
+        return '(XOpen %s %s)' % (g_nat(e[1]), g_ev(e[2]))
+    return '(XBase %s)' % g_ev(e)
+
 def model_expr(case):
     evs = []
     rb = readback_events(case['keys'])
+    if has_open(case['events']):
+        # Engine/DbOpen.v: the cursor machine plus the bindings of every suspended cursor
+        for e in case['events']:
+            evs.append(g_xev(e))
+            evs.extend(g_xev(r) for r in rb)
+        return '(run_xevents 200 %s)' % g_list(evs)
     for e in case['events']:
         evs.append(g_ev(e))
         evs.extend(g_ev(r) for r in rb)
@@ -265,28 +289,52 @@ class Driver:
             out.append(res)
         return out
 
-    def event(self, e):
+    def event(self, e, T=None):
         yp = self.yp
         k = e[0]
-        T = PolicyTerms(self, 'fact' if k == 'assert' else 'pat')
+        if k == 'open':
+            # the operation e[2] written over the variables of cursor e[1]: the SAME Variable objects, so the operation
+            # sees whatever that cursor has bound at this moment
+            ent = self.cursors.get(e[1])
+            if ent is None or e[2][0] not in ('assert', 'retractall', 'qall'):
+                return self.event(e[2])
+            CT = ent[1]
+            role = CT.role
+            CT.role = 'fact' if e[2][0] == 'assert' else 'pat'
+            try:
+                return self.event(e[2], CT)
+            finally:
+                CT.role = role
+        opened = T is not None
+        if T is None:
+            T = PolicyTerms(self, 'fact' if k == 'assert' else 'pat')
         if k == 'assert':
             front, t, via = e[1], e[2], e[3]
             if via == 'api':
                 key = callable_key(t)
                 args = [T.build(a) for a in (t[2] if t[0] == 'f' else [])]
+                # the value the arguments have now, read by the harness itself (not by the engine's get_value)
+                val = ['value', key[0], self.read_args(T, args)]
                 r = yp.assert_fact(yp.atom(key[0]), args, not front)
-                return ['ok'] if r is None else ['returned', repr(r)]
-            obj = T.build(t)
-            name = 'asserta' if front else 'assertz'
-            if via == 'boundvar':
-                obj = self.wrap_bound(T, obj)
-            elif via == 'compiled':
-                name = 'w_' + name
-            return self.once_builtin(name, obj)
+                r = ['ok'] if r is None else ['returned', repr(r)]
+            else:
+                obj = T.build(t)
+                v = T.read(obj)
+                val = ['value', v[1], self.read_args(T, obj._args if v[0] == 'f' else [])] if v[0] in ('f', 'a') else None
+                name = 'asserta' if front else 'assertz'
+                if via == 'boundvar':
+                    obj = self.wrap_bound(T, obj)
+                elif via == 'compiled':
+                    name = 'w_' + name
+                r = self.once_builtin(name, obj)
+            if opened and r == ['ok'] and val is not None:
+                return ['ok', val]
+            return r
         if k == 'retractall':
             t, via = e[1], e[2]
             obj = T.build(t)
             orig = obj
+            before = terms.rename_canonical([T.read(orig)])
             name = 'retractall'
             if via == 'boundvar':
                 obj = self.wrap_bound(T, obj)
@@ -294,7 +342,7 @@ class Driver:
                 name = 'w_retractall'
             r = self.once_builtin(name, obj)
             # retractall must leave the pattern as it was
-            if r == ['ok'] and terms.rename_canonical([T.read(orig)]) != terms.rename_canonical([t]):
+            if r == ['ok'] and terms.rename_canonical([T.read(orig)]) != before:
                 return ['ok-but-pattern-bound']
             return r
         if k == 'start':
@@ -326,6 +374,8 @@ class Driver:
             if e[1] not in self.cursors:
                 return ['bad']
             g, T, objs = self.cursors[e[1]]
+            if g is None:
+                return ['end']                 # dropped earlier: there is nothing left to resume
             try:
                 next(g)
             except StopIteration:
@@ -334,7 +384,17 @@ class Driver:
         if k == 'close':
             if e[1] not in self.cursors:
                 return ['bad']
-            self.cursors[e[1]][0].close()
+            if self.cursors[e[1]][0] is not None:
+                self.cursors[e[1]][0].close()
+            return ['ok']
+        if k == 'drop':
+            # the caller lets go of the generator object without closing it (`del q`, a loop variable going out of
+            # scope): CPython finalises a suspended generator as soon as its last reference disappears
+            if e[1] not in self.cursors:
+                return ['bad']
+            ent = self.cursors[e[1]]
+            self.cursors[e[1]] = (None, ent[1], ent[2])
+            del ent
             return ['ok']
         if k == 'qall':
             objs = [T.build(a) for a in e[2]]
@@ -354,7 +414,8 @@ class Driver:
 
     def finish(self):
         for g, _, _ in self.cursors.values():
-            g.close()
+            if g is not None:
+                g.close()
         for h in self.held:
             h.close()
 
@@ -385,8 +446,15 @@ def drive_events(case):
             pass
     return out
 
+def strip_obs(o):
+    """event observation without the value the harness read itself (['ok', ['value', name, args]] of 'open' asserts)"""
+    if isinstance(o, list) and len(o) == 2 and o[0] == 'ok':
+        return ['ok']
+    return o
+
 def compare_events(case, io, mo):
     m, stuck = split_model_obs(case, mo)
+    io = [[strip_obs(a[0]), a[1]] if len(a) == 2 else a for a in io]
     for i, (a, b) in enumerate(itertools.zip_longest(io, m)):
         if stuck is not None and i >= stuck:
             return None                      # outside the specified domain from here on
@@ -416,17 +484,26 @@ def _is_subsequence(small, big):
     it = iter(big)
     return all(any(x == y for y in it) for x in small)
 
+def _linear_vars(args):
+    """the arguments are pairwise different variables (the pattern matches every fact and an answer IS the fact)"""
+    return all(a[0] == 'v' for a in args) and len({a[1] for a in args}) == len(args)
+
 def list_oracle(case, io):
     """the property's own conditions that can be stated on the implementation alone"""
     keys = [tuple(k) for k in case['keys']]
     prev = [[] for _ in keys]
     cur_key = {}
-    for i, (e, o) in enumerate(zip(case['events'], io)):
+    snap = {}          # query cursor -> [facts of its predicate when it was started (first next), answers so far, linear?]
+    pat_of = {}
+    for i, (e0, o) in enumerate(zip(case['events'], io)):
         if o == ['deep']:
             return None
         if o[0] == 'raised':
-            return 'event %d %r raised %s: %s' % (i, e, o[1], o[2])
+            return 'event %d %r raised %s: %s' % (i, e0, o[1], o[2])
         r, rb = o
+        e = base_event(e0)
+        value = r[1] if (len(r) == 2 and r[0] == 'ok') else None
+        r = strip_obs(r)
         if r in (['multi'], ['ok-but-pattern-bound']) or r[0] == 'returned':
             return 'event %d %r: %s' % (i, e, r[0])
         k = None
@@ -437,15 +514,45 @@ def list_oracle(case, io):
         elif e[0] == 'start':
             cur_key[e[1]] = (e[3], len(e[4])) if e[2] == 'q' else callable_key(e[3])
             cur_key[e[1]] = (cur_key[e[1]], e[2])
+            snap.pop(e[1], None)
+            pat_of[e[1]] = e[4] if e[2] == 'q' else None
+        if e[0] == 'next' and e[1] in cur_key and cur_key[e[1]][1] == 'q' and cur_key[e[1]][0] in keys:
+            # "works on the facts as they were when the goal started": a query never has more answers than its predicate
+            # had facts at its first next(); with an all-variables pattern its answers are exactly those facts, in order
+            c = e[1]
+            if c not in snap:
+                snap[c] = [prev[keys.index(cur_key[c][0])], 0, _linear_vars(pat_of[c])]
+            if r[0] == 'ans':
+                facts, n, lin = snap[c]
+                if n >= len(facts):
+                    return ('event %d %r: answer number %d of a query whose predicate had %d facts when it started (%r)'
+                            % (i, e, n + 1, len(facts), r[1]))
+                if lin and r[1] != facts[n]:
+                    return ('event %d %r: answer number %d of an all-variables query is %r, the fact at that position when '
+                            'it started was %r' % (i, e, n + 1, r[1], facts[n]))
+                snap[c][1] = n + 1
+            elif r == ['end'] and snap[c][2] and snap[c][1] < len(snap[c][0]):
+                return ('event %d %r: an all-variables query ended after %d answers, its predicate had %d facts when it started'
+                        % (i, e, snap[c][1], len(snap[c][0])))
+            if r == ['end']:
+                snap[c][1] = 10 ** 9      # exhausted: any further answer is one too many
+                snap[c][2] = False
+        if e[0] in ('close', 'drop') and e[1] in snap:
+            snap[e[1]][1] = 10 ** 9       # closed: any further answer is one too many
+            snap[e[1]][2] = False
         for j, kk in enumerate(keys):
             changed = rb[j] != prev[j]
             if e[0] == 'assert' and kk == k:
                 if r != ['ok']:
                     return 'event %d %r: assert did not succeed exactly once' % (i, e)
-                fact = canon_args([terms.term_obs(a) for a in (e[2][2] if e[2][0] == 'f' else [])])
+                if value is not None:
+                    # arguments over the variables of an open cursor: the fact is what they denote NOW
+                    fact = value[2]
+                else:
+                    fact = canon_args([terms.term_obs(a) for a in (e[2][2] if e[2][0] == 'f' else [])])
                 want = [fact] + prev[j] if e[1] else prev[j] + [fact]
                 if rb[j] != want:
-                    return 'event %d %r: facts of %s/%d are %r, expected %r' % (i, e, kk[0], kk[1], rb[j], want)
+                    return 'event %d %r: facts of %s/%d are %r, expected %r' % (i, e0, kk[0], kk[1], rb[j], want)
             elif e[0] == 'retractall' and kk == k:
                 if r != ['ok']:
                     return 'event %d %r: retractall did not succeed exactly once' % (i, e)
@@ -518,6 +625,12 @@ def shrink_events(case):
         c = dict(case); c.pop('objects')
         yield c
     for i, e in enumerate(evs):
+        if e[0] == 'drop':
+            c = dict(case); c['events'] = evs[:i] + [['close', e[1]]] + evs[i + 1:]
+            yield c
+        if e[0] == 'open' and e[2][0] == 'assert' and e[2][3] != 'api':
+            c = dict(case); c['events'] = evs[:i] + [['open', e[1], e[2][:3] + ['api']]] + evs[i + 1:]
+            yield c
         if e[0] in ('assert', 'retractall') and e[-1] != 'builtin':
             e2 = list(e); e2[-1] = 'builtin'
             c = dict(case); c['events'] = evs[:i] + [e2] + evs[i + 1:]
@@ -535,8 +648,10 @@ def show_event(e):
         if e[2] == 'q':
             return 'c%d := %s(%s) [%s]' % (e[1], e[3], ','.join(st(a) for a in e[4]), e[5])
         return 'c%d := retract(%s) [%s]' % (e[1], st(e[3]), e[4])
-    if e[0] in ('next', 'close'):
+    if e[0] in ('next', 'close', 'drop'):
         return '%s c%d' % (e[0], e[1])
+    if e[0] == 'open':
+        return '%s  {variables of c%d, as bound now}' % (show_event(e[2]), e[1])
     if e[0] == 'retractall':
         return 'retractall(%s) [%s]' % (st(e[1]), e[2])
     if e[0] == 'qall':
@@ -623,12 +738,190 @@ def gen_history(rng, nops, interleave, nkeys=None):
             evs.insert(rng.randrange(1, max(2, len(evs) // 2)), ['clear'])
     return case
 
+# ------------------------------------------------------------------ cursors finished in an order that is not LIFO
+
+def _key_terms(rng, k):
+    name, ar = k
+    def fact():
+        return gen_goal(rng, name, ar, 0.05)
+    def allvars():
+        return ['f', name, [['v', i] for i in range(ar)]] if ar else ['a', name]
+    def pat(pv=None):
+        if rng.random() < 0.7:
+            return allvars()
+        return gen_goal(rng, name, ar, pv if pv is not None else rng.choice([0.6, 0.9]))
+    return fact, allvars, pat
+
+def gen_nonlifo(rng):
+    """Two or three cursors (queries and retracts) on ONE predicate, each started and left suspended, then FINISHED IN AN
+    ORDER THAT IS NOT LAST-IN-FIRST-OUT: one or more OLDER cursors are exhausted, closed or dropped (`del`) while a YOUNGER
+    one stays suspended; then the predicate is updated (assertz / asserta / retract / retractall; with and without other
+    updates in between) and the younger cursor is resumed to exhaustion.  Independent callers of the Python API do this
+    (two loops over the same predicate, the outer one left by break/return); nested loops of compiled code never do."""
+    k = (rng.choice(NAMES), rng.choice([1, 1, 1, 2]))
+    name, ar = k
+    fact, allvars, pat = _key_terms(rng, k)
+    evs = []
+    nextc = [0]
+    nfacts = [0]
+    def add_fact(front=False, vias=('builtin', 'api', 'api', 'compiled', 'boundvar')):
+        evs.append(['assert', front, fact(), rng.choice(vias)])
+        nfacts[0] += 1
+    def start(kind=None):
+        c = nextc[0]; nextc[0] += 1
+        kind = kind or ('q' if rng.random() < 0.7 else 'r')
+        p = pat()
+        if kind == 'q':
+            evs.append(['start', c, 'q', name, p[2] if p[0] == 'f' else [], rng.choice(['api', 'api', 'compiled', 'call'])])
+        else:
+            evs.append(['start', c, 'r', p, rng.choice(['builtin', 'builtin', 'boundvar', 'compiled'])])
+        return c
+    def update(kinds):
+        w = rng.choice(kinds)
+        if w == 'assertz':
+            add_fact(False)
+        elif w == 'asserta':
+            add_fact(True)
+        elif w == 'retract':
+            c = start('r')
+            evs.append(['next', c])
+            if rng.random() < 0.6:
+                evs.append([rng.choice(['close', 'drop']), c])
+        elif w == 'retractall':
+            evs.append(['retractall', gen_goal(rng, name, ar, 0.5), rng.choice(['builtin', 'builtin', 'boundvar', 'compiled'])])
+    ANY = ['assertz', 'assertz', 'asserta', 'retract', 'retractall']
+    for _ in range(rng.choice([1, 2, 2, 3, 4])):
+        add_fact(False, ('api', 'api', 'builtin'))
+    for _round in range(rng.choice([1, 1, 2])):
+        ncur = rng.choice([2, 2, 2, 3])
+        cs = []
+        for i in range(ncur):
+            c = start()
+            cs.append(c)
+            evs.append(['next', c])                       # started: it has read its snapshot and is suspended in it
+            if rng.random() < 0.15:
+                evs.append(['next', c])
+            if rng.random() < 0.2:
+                update(ANY)                               # (sometimes) an update while the cursors are being opened
+        survivor = cs[-1] if rng.random() < 0.7 else rng.choice(cs[1:])
+        older = [c for c in cs if c < survivor]
+        others = [c for c in cs if c != survivor]
+        rng.shuffle(others)
+        # at least one cursor that is older than the survivor finishes first
+        first = rng.choice(older)
+        others.remove(first)
+        finish_now = [first] + [c for c in others if rng.random() < 0.5]
+        for c in finish_now:
+            mode = rng.choice(['exhaust', 'exhaust', 'close', 'drop'])
+            if mode == 'exhaust':
+                evs.extend(['next', c] for _ in range(nfacts[0] + 2))
+            else:
+                evs.append([mode, c])
+            if rng.random() < 0.25:
+                update(ANY)                               # with ...
+        # ... and without updates between the end of the older cursor and the update that matters
+        for _ in range(rng.choice([1, 1, 2])):
+            update(['assertz', 'assertz', 'assertz', 'asserta', 'retract', 'retractall'])
+        for i in range(nfacts[0] + 2):
+            evs.append(['next', survivor])
+            if rng.random() < 0.15:
+                update(ANY)
+        for c in cs:
+            if c != survivor and c not in finish_now:
+                evs.extend(['next', c] for _ in range(rng.choice([1, 2, nfacts[0] + 2])))
+                if rng.random() < 0.5:
+                    evs.append([rng.choice(['close', 'drop']), c])
+    return {'events': evs, 'keys': case_keys(evs), 'shape': 'nonlifo'}
+
+# ------------------------------------------------------------------ operations over the variables of open cursors
+
+def _pattern_vars(e):
+    return sorted(terms.term_vars(['f', e[3], e[4]] if e[2] == 'q' else e[3]))
+
+def gen_open_term(rng, pvars, k):
+    """name(args) for the key k; every variable is one of pvars (variables of the cursor's pattern)"""
+    def arg():
+        q = rng.random()
+        if pvars and q < 0.55:
+            return ['v', rng.choice(pvars)]
+        if pvars and q < 0.72:
+            return ['f', rng.choice(['f', 'who']), [['v', rng.choice(pvars)]]]
+        if pvars and q < 0.8:
+            return terms.mklist([['v', rng.choice(pvars)]], ['v', rng.choice(pvars)] if rng.random() < 0.3 else None)
+        return gen_arg(rng, 0, 0.0)
+    return ['f', k[0], [arg() for _ in range(k[1])]] if k[1] else ['a', k[0]]
+
+def gen_open_history(rng):
+    """Operations issued WHILE QUERIES ARE OPEN, with arguments that mention the variables of those queries: the caller of
+    the Python API loops over the answers of name(Y) and, inside the loop, calls assert_fact / asserta / assertz /
+    retractall / another query with terms built from Y - Variable objects that are bound only until the loop advances.
+    The cursors are then advanced, exhausted, closed or dropped and everything is read back (after every event)."""
+    src = (rng.choice(NAMES), rng.choice([1, 1, 2]))
+    dsts = [(n, a) for n in NAMES for a in (1, 1, 2, 0) if (n, a) != src]
+    dst = rng.choice(dsts) if rng.random() < 0.8 else src
+    evs = []
+    nsrc = rng.choice([2, 3, 3, 4])
+    for _ in range(nsrc):
+        evs.append(['assert', False, gen_goal(rng, src[0], src[1], 0.08), rng.choice(['api', 'builtin'])])
+    for _ in range(rng.choice([0, 0, 1, 2])):
+        evs.append(['assert', rng.random() < 0.3, gen_goal(rng, dst[0], dst[1], 0.08), rng.choice(['api', 'builtin'])])
+    live = {}
+    pv = {}
+    for c in range(rng.choice([1, 1, 2])):
+        p = gen_goal(rng, src[0], src[1], 0.9)
+        if not terms.term_vars(p):
+            p = ['f', src[0], [['v', i] for i in range(src[1])]]
+        if rng.random() < 0.75:
+            e = ['start', c, 'q', src[0], p[2], rng.choice(['api', 'api', 'compiled', 'call'])]
+        else:
+            e = ['start', c, 'r', p, rng.choice(['builtin', 'builtin', 'boundvar', 'compiled'])]
+        evs.append(e)
+        pv[c] = _pattern_vars(e)
+        live[c] = rng.choice([nsrc + 1, nsrc + 1, rng.randrange(1, nsrc + 1)])
+    def open_op(c):
+        q = rng.random()
+        k = dst if rng.random() < 0.85 else src
+        if q < 0.7:
+            via = rng.choice(['api', 'api', 'api', 'builtin', 'compiled', 'boundvar'])
+            evs.append(['open', c, ['assert', rng.random() < 0.3, gen_open_term(rng, pv[c], k), via]])
+        elif q < 0.82:
+            evs.append(['open', c, ['retractall', gen_open_term(rng, pv[c], k), rng.choice(['builtin', 'boundvar', 'compiled'])]])
+        else:
+            t = gen_open_term(rng, pv[c], k)
+            evs.append(['open', c, ['qall', k[0], t[2] if t[0] == 'f' else []]])
+    if rng.random() < 0.15:
+        open_op(rng.choice(sorted(live)))          # before the query has started: its variables are unbound
+    while live:
+        c = rng.choice(sorted(live))
+        if live[c] <= 0:
+            evs.append([rng.choice(['close', 'close', 'drop']), c])
+            del live[c]
+            if rng.random() < 0.3:
+                open_op(c)                          # after the query is gone: unbound again
+            continue
+        evs.append(['next', c]); live[c] -= 1
+        for _ in range(rng.choice([0, 1, 1, 2])):
+            open_op(c)
+        if len(live) > 1 and rng.random() < 0.3:
+            open_op(rng.choice(sorted(live)))       # over the variables of the other open query
+        if rng.random() < 0.1:
+            evs.append(['assert', rng.random() < 0.3, gen_goal(rng, src[0], src[1], 0.08), rng.choice(['api', 'builtin'])])
+    case = {'events': evs, 'keys': case_keys(evs), 'shape': 'open'}
+    if rng.random() < 0.25:
+        case['objects'] = {'fact': rng.choice(['held', 'table']), 'pat': rng.choice(['held', 'table']),
+                           'nil_fact': rng.choice(NIL_SPELLINGS), 'nil_pat': rng.choice(NIL_SPELLINGS)}
+    return case
+
 # ====================================================================== compiled programs (Engine/DbProg.v)
 # A case of kind 'dbprog':
 #   clauses: [{'name', 'nv', 'head': [terms over 0..nv-1], 'body': [goals]}]   (clauses of one predicate are contiguous)
 #   goal:    ['u', a, b]  A = B  |  ['c', name, args]  name(args)  |  ['as', front, t]  |  ['re', t]  |  ['ra', t]
 #            control (round 5): ['cut'] | ['fail'] | ['or', A, B]  ( A ; B ) | ['if', C, T, E]  ( C -> T ; E )
 #            | ['ifthen', C, T]  ( C -> T ) | ['not', C]  \+ ( C )      with A, B, C, T, E lists of goals ([] = true)
+#            a goal ['as', front, t, 'py'] / ['re', t, 'py'] / ['ra', t, 'py'] (t = name(args) written out) is issued through a
+#            PYTHON PREDICATE registered with register_function: the source goal is py_assertz_<name>(args) etc., and the
+#            Python function calls yp.assert_fact(yp.atom(name), [the argument objects it received]) / yp.retract /
+#            yp.retractall - the clause's own Variable objects, bound at that moment.  The model is the same goal.
 #   queries: [[name, args over 0..nq-1, nq]]   run one after the other to exhaustion on the same engine
 #   reads:   [[name, arity]]                   stored facts printed at the end (match_dynamic with new variables)
 # The program text is compiled by the real compiler; the model runs the same clauses (Engine/RunDbProg.v).
@@ -664,8 +957,75 @@ def pl_goal(g, nilq=None):
         _QNIL[0] = False
         _NILQ[0] = None
 
+PY_OPS = {'as': None, 're': 'retract', 'ra': 'retractall'}
+
+def py_goal(g):
+    """(operation, name, args) if the goal is issued through a registered Python predicate, else None"""
+    if g[0] not in PY_OPS or g[-1] != 'py':
+        return None
+    t = g[2] if g[0] == 'as' else g[1]
+    if t[0] == 'a' and t[1] != '[]':
+        name, args = t[1], []
+    elif t[0] == 'f' and t[2] and t[1] != '.':
+        name, args = t[1], t[2]
+    else:
+        return None
+    op = ('asserta' if g[1] else 'assertz') if g[0] == 'as' else PY_OPS[g[0]]
+    return op, name, args
+
+def py_predicates(case):
+    out = set()
+    for c in case['clauses']:
+        for g in flat_goals(c['body']):
+            pg = py_goal(g)
+            if pg:
+                out.add((pg[0], pg[1]))
+    return sorted(out)
+
+def register_py_predicates(yp, case):
+    """Python predicates that update the database through the API with the argument objects they are called with"""
+    def make(op, name):
+        def pred(*args):
+            if op == 'assertz':
+                yp.assert_fact(yp.atom(name), list(args))
+                yield False
+            elif op == 'asserta':
+                yp.assert_fact(yp.atom(name), list(args), False)
+                yield False
+            elif op == 'retract':
+                for _ in yp.retract(yp.functor(name, list(args)) if args else yp.atom(name)):
+                    yield False
+            else:
+                for _ in yp.retractall(yp.functor(name, list(args)) if args else yp.atom(name)):
+                    yield False
+        return pred
+    for op, name in py_predicates(case):
+        yp.register_function('py_%s_%s' % (op, name), make(op, name), arity=-1)
+
+def decorate_py(rng, case, p=0.6):
+    """a copy of the dbprog case in which a share p of the database goals with a written-out term go through Python predicates"""
+    import json
+    case = json.loads(json.dumps(case))
+    def dec(gs):
+        for g in gs:
+            if g[0] in ('or', 'if', 'ifthen', 'not'):
+                for sub in g[1:]:
+                    dec(sub)
+            elif g[0] in PY_OPS and rng.random() < p:
+                g.append('py')
+                if py_goal(g) is None:
+                    g.pop()
+    for c in case['clauses']:
+        dec(c['body'])
+    case['py'] = True
+    return case
+
 def _pl_goal(g):
     k = g[0]
+    pg = py_goal(g)
+    if pg:
+        op, name, args = pg
+        return pl_term(['f', 'py_%s_%s' % (op, name), args] if args else ['a', 'py_%s_%s' % (op, name)])
     if k == 'u':
         return '%s = %s' % (pl_term(g[1]), pl_term(g[2]))
     if k == 'c':
@@ -824,6 +1184,7 @@ def prog_run_impl(case):
             return {'end': 'too-large', 'queries': []}       # D13: CPython's limit of 20 nested blocks; not a database matter
         raise
     yp.load_script_from_string(code)
+    register_py_predicates(yp, case)
     out_q = []
     count = [0]
     real_assert = yp.assert_fact
@@ -1195,6 +1556,16 @@ def dbprog_corpus():
                    ('m', 1, [v(0)], [['ifthen', [['re', f('p', v(0))]], [['as', True, f('q', v(0))]]]]),
                    ('n', 1, [v(0)], [['or', [['ifthen', [['c', 'p', [v(0)]]], [['as', False, f('q', v(0))]]]], [['as', False, f('q', z)]]]])],
                   [['init', [], 0], ['m', [v(0)], 1], ['n', [v(0)], 1], ['m', [v(0)], 1], ['m', [v(0)], 1], ['n', [v(0)], 1]], [['p', 1], ['q', 1]]))
+    # Python predicates (register_function) that update the database with the argument objects they receive from compiled
+    # code: what is stored is what the clause variables denote at that moment:  m :- p(X), py_assertz_q(who(X)), ..., fail.  m.
+    L.append(case([('init', 0, [], [['as', False, f('p', a)], ['as', False, f('p', f('f', b))], ['as', False, f('p', I(1))]]),
+                   ('m', 1, [], [['c', 'p', [v(0)]], ['as', False, f('q', f('who', v(0))), 'py'], ['as', True, f('r', v(0), v(0)), 'py'], ['fail']]),
+                   ('m', 0, [], []),
+                   ('n', 2, [], [['c', 'q', [v(0)]], ['re', f('r', v(1), v(1)), 'py'], ['as', False, f('p', f('g', v(0), v(1))), 'py'],
+                                 ['ra', f('q', v(0)), 'py'], ['fail']]),
+                   ('n', 0, [], [])],
+                  [['init', [], 0], ['m', [], 0], ['n', [], 0]], [['p', 1], ['q', 1], ['r', 2]]))
+    L[-1]['py'] = True
     # [] stored by compiled code, asked for through the API after a clear() (and the other way round)
     nil = ['a', '[]']
     c = case([('init', 0, [], [['as', False, f('p', nil)], ['as', False, f('p', f('f', nil))]]),
